@@ -148,10 +148,95 @@ def one_matrix(ctx: Ctx, J, Jt, dtype, fam, cheap_only=False):
         check_mgda(ctx, J, Jt, dtype, s2, fam, rng.choice([1, 2, 5, 20, 100]), rng.choice([0.0, 0.0, 1e-3]))
 
 
+def check_e2e(ctx: Ctx):
+    """END TO END (theorems C04b.backward_upgrad_nonconflict / backward_dualproj_nonconflict): `backward(tensors, UPGrad)` on a
+    random integer program.  The model composes the autojac pipeline with `upgradAgg` / `dualprojAgg` on the program's exact
+    Jacobian; (i) the real `.grad` deposits are compared with the model's, (ii) the Lean predicate NonConflictUpTo is evaluated
+    exactly on the vector the real call deposited, against the exact Jacobian."""
+    from autojac_common import model_backward
+    from common import to_frac
+    from progs import differentiable_nonleaves, numel, random_program
+    rng = ctx.rng
+    P = random_program(rng)
+    while P.casts or P.big:
+        P = random_program(rng)
+    cands = differentiable_nonleaves(P)
+    tensors = rng.sample(cands, min(len(cands), rng.choice([1, 2, 2])))
+    m = sum(numel(P.nodes[t].shape) for t in tensors)
+    inputs = sorted(P.reach_leaves(tensors))
+    if m < 2 or m > 6 or not inputs:
+        return
+    rep = ctx.driver.ask(["jacobian", P.to_sx(), ["outs", tensors], ["ins", inputs]])
+    J = []
+    for t, blocks in zip(tensors, rep[1][1:]):
+        nt = numel(P.nodes[t].shape)
+        for r in range(nt):
+            row = []
+            for i, blk in zip(inputs, blocks):
+                row += [Fr(0)] * numel(P.nodes[i].shape) if blk == "none" else [to_frac(x) for x in blk[r]]
+            J.append(row)
+    if all(v == 0 for r in J for v in r) or max(abs(v) for r in J for v in r) > 10 ** 6:
+        return
+    Jt = to_tensor(J, torch.float64)
+    s_f = float(torch.linalg.svdvals(Jt)[0])
+    name, cls = rng.choice([("upgrad", UPGrad), ("dualproj", DualProj)])
+    norm_eps, reg_eps = rng.choice([(1e-4, 1e-2), (1e-6, 1e-4), (1e-2, 1e-1)])
+    if 0.25 < s_f / norm_eps < 4:
+        return
+    pref = rng.choice([None, [Fr(rng.randint(0, 8), 4) for _ in range(m)]])
+    u = pref if pref is not None else [Fr(1, m)] * m
+    A = cls(pref_vector=None if pref is None else torch.tensor([float(v) for v in pref], dtype=torch.float64),
+            norm_eps=norm_eps, reg_eps=reg_eps)
+    ts = P.build(torch.float64)
+    chunk = rng.choice([None, 1, 2])
+    rp = {"check": "end-to-end", "aggregator": name, "program": P.describe(), "prog_sx": sx(P.to_sx()), "tensors": tensors,
+          "inputs": inputs, "pref": None if pref is None else [str(v) for v in pref], "norm_eps": norm_eps, "reg_eps": reg_eps,
+          "chunk": chunk, "J": [[str(v) for v in r] for r in J]}
+    from torchjd import backward
+    try:
+        backward([ts[t] for t in tensors], A, inputs=[ts[i] for i in inputs], parallel_chunk_size=chunk)
+    except Exception as e:  # noqa: BLE001
+        ctx.violation(f"backward with {name} raised {type(e).__name__} on a valid call (theorem: it cannot fail)", rp)
+        return
+    v_real = []
+    for i in inputs:
+        v_real += tensor_to_fr(ts[i].grad)
+    merr, mg, _ = model_backward(ctx.driver, P, tensors, inputs, (name, Fr(s_f), Fr(norm_eps), Fr(reg_eps), list(u)), chunk,
+                                 False, {}, inputs)
+    ctx.case(("e2e", name, tuple(P.describe()), tuple(tensors), str(pref), norm_eps, reg_eps), nontrivial=True,
+             sample={"end_to_end": name, "program": P.describe(), "rows": m})
+    ctx.count("end_to_end", name)
+    if merr is not None:
+        ctx.violation(f"the end-to-end model reports {merr} on a valid call", rp, no_input=True)
+        return
+    v_mod = []
+    for i in inputs:
+        v_mod += mg[i]
+    uu = ulp(torch.float64)
+    kappa = (1 + reg_eps) / reg_eps
+    rowsum = max(sum(abs(x) for x in r) for r in J)
+    tol = Fr(64 * uu * kappa * m * m) * max(maxabs(u), Fr(1, 10 ** 30)) * rowsum + Fr(64 * uu) * maxabs(v_mod)
+    if max(abs(a - b) for a, b in zip(v_real, v_mod)) > tol:
+        ctx.violation(f"backward with {name}: the deposited update {[float(x) for x in v_real]} differs from the end-to-end "
+                      f"model {[float(x) for x in v_mod]} (tolerance {float(tol):.2e})", rp)
+        return
+    w = tensor_to_fr(A.weighting(Jt))
+    l1 = sum(abs(x) for x in w)
+    s2 = Fr(s_f) ** 2 if s_f >= norm_eps else Fr(0)
+    allow = [Fr(reg_eps) * s2 * max(wi, 0) + (C_FLOAT * m * Fr(uu) + Fr(1, 10 ** 8)) * max(s2, Fr(s_f) ** 2) * l1 for wi in w]
+    sl = slack(ctx, J, v_real, allow)
+    if s_f >= norm_eps and min(sl) < 0:
+        i = sl.index(min(sl))
+        ctx.violation(f"backward with {name}: the deposited update conflicts with objective {i}: <row_{i}, update> = "
+                      f"{float(sl[i] - allow[i]):.6e} below the allowance {-float(allow[i]):.6e}", rp)
+
+
 def main(ctx: Ctx):
     ctx.lean_gate()
     rng = ctx.rng
     quick = ctx.tier == "quick"
+    for _ in range(60 if quick else 6000):
+        check_e2e(ctx)
     small = list(all_small(3, 3))
     if quick:
         small = rng.sample(small, 250)
@@ -182,5 +267,7 @@ def main(ctx: Ctx):
              "f32 / 1e-80..1e80 f64), rational-SVD and integer matrices; UPGrad/DualProj (preference vectors, reg_eps "
              "1e-6..1e-2), MGDA (max_iters 1,2,5,20,100; epsilon 0/1e-3), CAGrad c in {1,1.5,3}; the Lean predicate "
              "NonConflictUpTo is evaluated EXACTLY (rationals) on the implementation's output with the allowance of the "
-             "property (+ a float term C·m·u·s²·|w|₁); MGDA allowance uses the certified exact min-norm value",
+             "property (+ a float term C·m·u·s²·|w|₁); MGDA allowance uses the certified exact min-norm value; END TO END: backward "
+             "with UPGrad / DualProj on random integer programs against the composed model (autojac pipeline ∘ upgradAgg) and the "
+             "predicate on the deposited update (theorems of TjdProps/C04b.lean)",
         trusted=TRUSTED + ["CLARABEL (CAGrad) is a kernel: only a scaled solver allowance 1e-4·s²·|w|₁ is checked"])
